@@ -65,6 +65,8 @@ Definition model_parse (tb : tables) (key : string) (s : list Z) : res (list bm)
   else if String.eqb key "kuN" then compat_matchers sp cp Utf8Strict s
   else if String.eqb key "kf1" then one (compat_matcher sp cp Fallback s)
   else if String.eqb key "kfN" then compat_matchers sp cp Fallback s
+  (* what the amtool command line stores for a matcher argument: the server's default (fallback) mode *)
+  else if String.eqb key "amtool" then one (compat_matcher sp cp Fallback s)
   else Err "unknown-key".
 Definition all_keys : list string := ["c1"; "cN"; "u1"; "uN"; "kc1"; "kcN"; "ku1"; "kuN"; "kf1"; "kfN"].
 
